@@ -334,6 +334,8 @@ func runC14(c *Check) {
 	c.ruleAgeTestAppliesToRequested("R8")
 	c.ruleNewEntriesRegistered("R9")
 	c.ruleFreshMessageAfterTransmit("R10", "state.(*TxTracker).Check")
+	c.ruleRequestTimeOnlyWhenRequesting("R11")
+	c.ruleCleanupAlwaysForwards("R12")
 
 	// ---- R6 every filled getdata is transmitted
 	if fn := c.Fn("R6", "state.(*TxTracker).Check"); fn != nil {
